@@ -23,7 +23,7 @@ def has_int_number(v):
     k = v["k"]
     if k == "num":
         x = wire.words_dbl(v["w"])
-        return x == x and abs(x) < 2 ** 30 and x == int(x) and not (x == 0 and str(x)[0] == "-")
+        return x == x and abs(x) <= 2 ** 53 and x == int(x) and not (x == 0 and str(x)[0] == "-")
     if k == "arr":
         return any(has_int_number(e) for e in v["e"])
     if k == "obj":
@@ -252,17 +252,26 @@ def choose_alt(alts, findings):
 
 def run(rep):
     # 1. TLC enumerates the case spaces and model-checks the laws of the reference on every enumerated case
-    res = tlc.run(rep.pid, "C19", ENUM_CFG, env={"TIER": rep.tier}, timeout=3000, tag="enum", heap="6g")
+    import os
+    env = {"TIER": rep.tier}
+    only = os.environ.get("C19_ONLY", "")          # benchmark switch: one family root only (never a verdict, see below)
+    if only:
+        env["C19_ONLY"] = only
+    res = tlc.run(rep.pid, "C19", ENUM_CFG, env=env, timeout=3000, tag="enum", heap="6g")
     rep.add_tlc("C19.Enum+Laws", res)
     allc, fam, nextra, nrand = prepare(res.records, rep.tier, rep.seed)
-    for need, least in (("tokc", 1000), ("tokf", 400), ("mut", 3000), ("val", 3000), ("sv", 800), ("st", 1000)):
-        if fam.get(need, 0) < least:
+    for need, least in (("tokc", 1000), ("tokf", 400), ("mut", 3000), ("val", 3000), ("sv", 800), ("st", 1000),
+                        ("nt", 2000), ("nv", 500)):
+        if fam.get(need, 0) < least and not only:
             raise Machinery("enumeration produced only %d cases of family %s" % (fam.get(need, 0), need))
     names = {"tokc": "token-class sequences (all short ones, then every one-token extension of a viable prefix)",
              "tokf": "full-vocabulary token sequences (same scheme)", "mut": "single-token mutations of valid texts (incl. nesting 30)",
              "val": "value structures depth<=3 width<=2, key strings, cycles 1-3, shared nodes",
              "sv": "strings by shape as stringify operands (every sequence of 7 code-unit classes up to a length; root, key and value)",
-             "st": "strings by shape as string tokens (unit-class sequences x raw / \\u / \\U / short-escape spellings; root, key and value)"}
+             "st": "strings by shape as string tokens (unit-class sequences x raw / \\u / \\U / short-escape spellings; root, key and value)",
+             "nt": "number tokens by shape (digit runs by length x pattern and around 2^k, x token forms incl. near misses; "
+                   "mantissa x exponent-spelling grid; signs; root / array / property / white space)",
+             "nv": "the numbers denoted by the number tokens as stringify operands (root, array element, property value)"}
     for f, n in sorted(fam.items()):
         rep.spaces.append({"space": names.get(f, f) + " (TLC-enumerated)", "cases": n, "complete": True})
     if nrand:
@@ -291,6 +300,10 @@ def run(rep):
         for d in choose_alt(v.get("alts") or [], rep.findings):
             rep.mismatch(show_case(c), detail, dev=d)
     rep.exhaustive = True
+    if only:
+        rep.dump_mismatches()
+        raise Machinery("C19_ONLY=%s is a partial run (no verdict): %d records judged, %d not explained by a listed finding, "
+                        "families %r" % (only, len(recs), len(rep.violations), fam))
     rep.notes["rule"] = "distinct texts / (value tree, host number representation) pairs; every one is replayed and judged"
     rep.notes["families"] = fam
     rep.notes["representation_variants"] = nextra
